@@ -24,6 +24,7 @@ Query:
      'assign': [[field, e]...], 'with': None|'header'|'noheader'}
 """
 import re
+import zlib
 
 AGG_FUNCS = ['COUNT', 'MIN', 'MAX', 'SUM', 'AVG', 'VARIANCE', 'MEDIAN', 'ARRAY_AGG', 'ANY_VALUE']
 # user functions available to generated queries (defined identically in both init codes); the reference knows what they return
@@ -109,7 +110,11 @@ def render_expr(e, ctx, lang):
         body = e[1].replace('\\', '\\\\').replace('\n', '\\n').replace('\r', '\\r').replace('\t', '\\t')
         return e[2] + body + e[2]
     if t == 'str':
-        txt = lit(e[1], e[2] if len(e) > 2 else "'", raw_tab=True)
+        quote = e[2] if len(e) > 2 else "'"
+        if lang == 'js' and quote in ("'", '"') and zlib.crc32(e[1].encode('utf-8', 'surrogatepass')) % 4 == 0:
+            # JS has a third quote: a template literal without interpolation is a string literal like the other two
+            return lit(e[1], '`', raw_tab=True).replace('${', '\\${')
+        txt = lit(e[1], quote, raw_tab=True)
         if len(e) > 3 and e[3] == 'rawtab':
             txt = txt.replace('\\t', '\t')
         return txt
